@@ -70,15 +70,30 @@ pub(crate) fn named(attr: &StructAttr, ts_name: Expr, fields: &FieldsNamed) -> R
             let flattened = #flattened;
             // Unwrap `(A | B)`, but only if the first parenthesis is closed by the last one -
             // `(A | B) & (C | D)` has to stay as it is.
+            // Parentheses inside doc comments and quoted names do not count.
             let mut depth = 0usize;
+            let (mut in_comment, mut in_string, mut previous) = (false, false, ' ');
             let wrapped = flattened.starts_with('(')
                 && flattened.ends_with(')')
                 && flattened.char_indices().all(|(i, c)| {
-                    match c {
-                        '(' => depth += 1,
-                        ')' => depth = depth.saturating_sub(1),
-                        _ => (),
+                    // the `*` of `/*` does not close the comment, and an escaped backslash
+                    // does not escape the quote after it
+                    let mut consumed = false;
+                    if in_comment {
+                        in_comment = !(previous == '*' && c == '/');
+                    } else if in_string {
+                        in_string = !(c == '"' && previous != '\\');
+                        consumed = previous == '\\' && c == '\\';
+                    } else {
+                        match c {
+                            '*' if previous == '/' => (in_comment, consumed) = (true, true),
+                            '"' => in_string = true,
+                            '(' => depth += 1,
+                            ')' => depth = depth.saturating_sub(1),
+                            _ => (),
+                        }
                     }
+                    previous = if consumed { ' ' } else { c };
                     depth > 0 || i == flattened.len() - 1
                 });
             if wrapped {
